@@ -104,8 +104,8 @@ Definition tx_allowed (f : faults) (b : body) (res : option err) (calls : list c
         end
     end.
 
-(* every statement whose (last) driver answer was an error was seen by the body as a non-nil error, and
-   only those (seen: per issued statement, did the body get an error), whatever the log switches *)
+(* every statement that reached the driver: the body saw a non-nil error iff its (last) driver answer was
+   an error (seen: per issued statement, did the body get an error), whatever the log switches *)
 Fixpoint stmt_results (cs : list call) : list (nat * bool) :=
   match cs with
   | [] => []
@@ -117,7 +117,10 @@ Fixpoint stmt_results (cs : list call) : list (nat * bool) :=
   | _ :: r => stmt_results r
   end.
 Definition seen_ok (calls : list call) (seen : list bool) : bool :=
-  list_eqb Bool.eqb (map (fun p : nat * bool => negb (snd p)) (stmt_results calls)) seen.
+  forallb (fun p : nat * bool => match nth_error seen (fst p) with
+                                 | Some saw => Bool.eqb saw (negb (snd p))
+                                 | None => false
+                                 end) (stmt_results calls).
 
 (* ------------------------------------------------------------ (2) rows -> destination *)
 Definition tag_name (f : field) : string :=
